@@ -111,6 +111,7 @@ class Repo:
         self.attr_aliases = inline.expand_attr_aliases(self)
         self.inlined = inline.apply(self)
         self.local_aliases = inline.expand_local_object_aliases(self)
+        self.zip_peeled = inline.peel_zip_loops(self)
 
     def module(self, rel):
         if rel not in self.modules:
